@@ -83,6 +83,8 @@ class Stream:
         obl = []
         same, why = kref.items_equal(sinkA.items, sinkB.items)
         obl.append(("bytes_independent_of_sink_kind", same))
+        keepA, keepB = sinkA.retained_unchanged(), sinkB.retained_unchanged()
+        obl.append(("buffers_handed_to_write_are_not_reused", keepA if keepB is True else (keepB if keepA is True else (False if False in (keepA, keepB) else z3.And(keepA, keepB)))))
         obl.append(("encoder_only_calls_write", not (monA.forbidden or monB.forbidden)))
         if monA.forbidden or monB.forbidden:
             c.notes["violation_info"] = {"sink_attributes_used": sorted(set(monA.forbidden + monB.forbidden))}
@@ -253,7 +255,10 @@ def task_class(args):
             nonlocal kinds_ok
             if first[0]:
                 first[0] = False
-                k = validate_path(h, c)
+                try:
+                    k = validate_path(h, c)
+                except Exception as e:
+                    k = {"validation_crashed:" + type(e).__name__: False}
                 if k:
                     bad = [n for n, ok in k.items() if not ok]
                     if bad:
